@@ -40,8 +40,12 @@ KINDS = [
     "preset:auto", "preset:auto-hq", "preset:greedy", "preset:optimal",
     "Auto:cache", "Auto:nocache", "AutoHQ:cache", "AutoHQ:nocache",
     "ReusableHyper", "ReusableRG",
+    "ReusableHyper:improved", "ReusableHyper:overwrite", "ReusableRG:improved",
 ]
-THREAD_KINDS = ["Auto:cache", "Auto:nocache", "AutoHQ:nocache", "ReusableHyper", "ReusableRG", "preset:greedy"]
+THREAD_KINDS = [
+    "Auto:cache", "Auto:nocache", "AutoHQ:nocache", "ReusableHyper", "ReusableRG",
+    "preset:greedy", "ReusableHyper:improved",
+]
 
 
 @st.composite
@@ -128,10 +132,11 @@ def build_optimizer(spec):
         if spec.get("cutoff") is not None:
             kw["optimal_cutoff"] = spec["cutoff"]
         return cls(**kw)
-    if kind == "ReusableHyper":
-        return ctg.ReusableHyperOptimizer(methods=["greedy"], **hk)
-    if kind == "ReusableRG":
-        return ReusableRandomGreedyOptimizer(max_repeats=3, parallel=False)
+    ow = {"improved": "improved", "overwrite": True}.get(kind.partition(":")[2], False)
+    if kind.startswith("ReusableHyper"):
+        return ctg.ReusableHyperOptimizer(methods=["greedy"], overwrite=ow, **hk)
+    if kind.startswith("ReusableRG"):
+        return ReusableRandomGreedyOptimizer(max_repeats=3, parallel=False, overwrite=ow)
     raise ValueError(kind)
 
 
